@@ -34,7 +34,8 @@ ToNatR(w, i) == IF i > Len(w) THEN 0 ELSE w[i] + B * ToNatR(w, i + 1)
 ToNat(w) == ToNatR(w, 1)
 
 \* n-limb word of a non-negative TLC integer (truncating)
-FromNat(x, n) == [i \in 1..n |-> (x \div (B^(i - 1))) % B]   \* B^(i-1) must stay < 2^31: callers use n*LB <= 30 or small x
+RECURSIVE FromNat(_, _)
+FromNat(x, n) == IF n = 0 THEN <<>> ELSE <<x % B>> \o FromNat(x \div B, n - 1)
 \* n-limb two's complement word of a small TLC integer (|x| < B)
 FromInt(x, n) == IF x >= 0 THEN [i \in 1..n |-> IF i = 1 THEN x % B ELSE 0]
                  ELSE [i \in 1..n |-> IF i = 1 THEN (B + x) % B ELSE B - 1]
